@@ -1183,6 +1183,16 @@ psf_binheader_readf (SF_PRIVATE *psf, char const *format, ...)
 	return byte_count ;
 } /* psf_binheader_readf */
 
+/*
+**	The offset in the file of the next byte psf_binheader_readf will deliver :
+**	the file position less what the header cache holds beyond header.indx.
+**	Chunk parsers use it to make sure that every chunk moves them forward.
+*/
+sf_count_t
+psf_binheader_tell (SF_PRIVATE *psf)
+{	return psf_ftell (psf) - (psf->header.end - psf->header.indx) ;
+} /* psf_binheader_tell */
+
 /*-----------------------------------------------------------------------------------------------
 */
 
